@@ -327,3 +327,40 @@ package rtsp
 //@   requires c != nil && c.url != nil
 //@   modifies
 //@   ensures true
+
+// ---- C14: the dispatcher reads exactly one frame / response / request, chosen by the first four bytes ------------------
+//@ import "bufio"
+//@ global ReadPacket readonly
+//@ global ReadResponse readonly
+//@ global ReadRequest readonly
+// Peek does not consume: it shows the next n bytes of the stream
+//@ extern func (b *bufio.Reader) Peek(n int) (sl []byte, err error)
+//@   requires b != nil
+//@   modifies
+//@   ensures err == nil ==> len(sl) == n && forall(i, 0, n, sl[i] == ghostBytes(b, "src")[ghostInt(b, "rpos") + i])
+//@   ensures ghostInt(b, "rpos") >= 0 && ghostInt(b, "rpos") <= 1<<60
+//@ extern func (l *xlog.Logger) Warn(msg string, fields ...xlog.Field) ()
+//@   modifies
+//@ extern func (h receiveHandler) onRequest(req *Request) (err error)
+//@   requires req != nil
+//@   modifies ghostInt(h, "handled"), all()
+//@   ensures ghostInt(h, "handled") == old(ghostInt(h, "handled")) + 1
+//@ extern func (h receiveHandler) onResponse(resp *Response) (err error)
+//@   requires resp != nil
+//@   modifies ghostInt(h, "handled"), all()
+//@   ensures ghostInt(h, "handled") == old(ghostInt(h, "handled")) + 1
+//@ extern func (h receiveHandler) onPack(pack *RTPPack) (err error)
+//@   requires pack != nil
+//@   modifies ghostInt(h, "handled"), all()
+//@   ensures ghostInt(h, "handled") == old(ghostInt(h, "handled")) + 1
+//@ spec func nextIs(r *bufio.Reader, i int, b byte) bool = ghostBytes(r, "src")[ghostInt(r, "rpos") + i] == b
+//@ spec func nextIsRTSP(r *bufio.Reader) bool = nextIs(r, 0, 0x52) && nextIs(r, 1, 0x54) && nextIs(r, 2, 0x53) && nextIs(r, 3, 0x50)
+//@ func receive(logger *xlog.Logger, r *bufio.Reader, channels []int, handler receiveHandler) (err error)
+//@   requires r != nil && logger != nil && handler != nil && len(channels) <= 256 && ghostInt(handler, "handled") >= 0 && ghostInt(handler, "handled") < 1<<40
+//@   modifies all()
+//@   calls_only (*bufio.Reader).Peek, var github.com/cnotch/ipchub/service/rtsp.ReadPacket, var github.com/cnotch/ipchub/service/rtsp.ReadResponse, var github.com/cnotch/ipchub/service/rtsp.ReadRequest, (github.com/cnotch/ipchub/service/rtsp.receiveHandler).onPack, (github.com/cnotch/ipchub/service/rtsp.receiveHandler).onResponse, (github.com/cnotch/ipchub/service/rtsp.receiveHandler).onRequest, (*github.com/cnotch/xlog.Logger).Warn, (*github.com/cnotch/xlog.Logger).Errorf, (*github.com/cnotch/xlog.Logger).Debugf, (*github.com/cnotch/xlog.Logger).LevelEnabled, (*github.com/cnotch/ipchub/av/format/rtsp.Response).String, (*github.com/cnotch/ipchub/av/format/rtsp.Request).String, strings.TrimSpace, (error).Error
+//@   loop 0: unroll 5
+//@   assert[call:ReadPacket] nextIs(r, 0, 0x24) && ghostInt(r, "rpos") == old(ghostInt(r, "rpos")) && ghostInt(handler, "handled") == old(ghostInt(handler, "handled"))
+//@   assert[call:ReadResponse] !nextIs(r, 0, 0x24) && nextIsRTSP(r) && ghostInt(r, "rpos") == old(ghostInt(r, "rpos")) && ghostInt(handler, "handled") == old(ghostInt(handler, "handled"))
+//@   assert[call:ReadRequest] !nextIs(r, 0, 0x24) && !nextIsRTSP(r) && ghostInt(r, "rpos") == old(ghostInt(r, "rpos")) && ghostInt(handler, "handled") == old(ghostInt(handler, "handled"))
+//@   ensures ghostInt(handler, "handled") == old(ghostInt(handler, "handled")) || ghostInt(handler, "handled") == old(ghostInt(handler, "handled")) + 1
